@@ -5,7 +5,7 @@ From FF Require Import Lib.Word Gen.Consts_device_acpi_aml Gen.Consts_aml_tree A
   Aml.Tree Aml.TreeSpec Aml.TreeProofs Aml.TreeProofsOps Aml.Parser Aml.Grammar Aml.LexRoundtrip
   Aml.ParserTotalTree Aml.ParserTotalBase
   Aml.ParserFragBase Aml.ParserFragFirst Aml.ParserFragF0 Aml.ParserFragF0Shape Aml.ParserFragF0Conn Aml.ParserFragWalk
-  Aml.ParserFragRose Aml.ParserFragDev Aml.ParserFragF1.
+  Aml.ParserFragRose Aml.ParserFragDev Aml.ParserFragArgs Aml.ParserFragF1.
 Import ListNotations.
 Local Open Scope N_scope.
 
@@ -27,30 +27,25 @@ Lemma enc_items_cons x t : enc_items (x :: t) = enc_item x ++ enc_items t. Proof
 
 Lemma lay1_rsizes h tbl : forall l b off, rsizes (lay1 h tbl b off l) = iszs l.
 Proof.
-  induction l as [|d rest IH|k seg body rest IHb IH|k seg fl body rest IHb IH] using items_ind; intros b off; [reflexivity| | |].
+  induction l as [|d rest IH|bk k seg fa body rest IHb IH] using items_ind; intros b off; [reflexivity| |].
   - rewrite lay1_cons, rsizes_app, IH, iszs_cons. reflexivity.
-  - rewrite lay1_cons, rsizes_app, IH, iszs_cons, lay1_dev, isz_dev. cbn [rsizes fold_right]. rewrite !rsize_eq.
-    cbn [rsizes fold_right]. rewrite !rsize_eq. fold (rsizes (lay1 h tbl (b + 3) (off + 2 + k + 4) body)). rewrite IHb. cbn [rsizes fold_right]. lia.
-  - rewrite lay1_cons, rsizes_app, IH, iszs_cons, lay1_meth, isz_meth. cbn [rsizes fold_right]. rewrite !rsize_eq.
-    cbn [rsizes fold_right]. rewrite !rsize_eq. fold (rsizes (lay1 h tbl (b + 4) (off + 1 + k + 5) body)). rewrite IHb. cbn [rsizes fold_right]. lia.
+  - rewrite lay1_cons, rsizes_app, IH, iszs_cons, lay1_blk, isz_blk. cbn [rsizes fold_right]. rewrite !rsize_eq.
+    rewrite rsizes_app, leaf_row_rsizes, len_hd_pays. cbn [rsizes fold_right]. rewrite rsize_eq, IHb. lia.
 Qed.
 
 Lemma lay1_nodes h tbl : forall l b off x, In x (rnodesl (lay1 h tbl b off l)) -> b <= x < b + N.of_nat (iszs l).
 Proof.
-  induction l as [|d rest IH|k seg body rest IHb IH|k seg fl body rest IHb IH] using items_ind; intros b off x Hx; [contradiction| | |].
+  induction l as [|d rest IH|bk k seg fa body rest IHb IH] using items_ind; intros b off x Hx; [contradiction| |].
   - rewrite lay1_cons, rnodesl_app in Hx. rewrite iszs_cons. apply in_app_or in Hx. destruct Hx as [Hx|Hx].
     + cbn [lay1_item rnodesl flat_map rnodes app In] in Hx. cbn [isz]. lia.
     + apply IH in Hx. cbn [isz] in *. lia.
-  - rewrite lay1_cons, rnodesl_app in Hx. rewrite iszs_cons, isz_dev. apply in_app_or in Hx. destruct Hx as [Hx|Hx].
-    + rewrite lay1_dev in Hx. unfold rnodesl in Hx. cbn [flat_map] in Hx. rewrite app_nil_r, rnodes_eq in Hx.
-      destruct Hx as [<-|Hx]; [lia|]. unfold rnodesl in Hx. cbn [flat_map] in Hx. rewrite !rnodes_eq in Hx. cbn [rnodesl flat_map app] in Hx.
-      destruct Hx as [<-|[<-|Hx]]; [lia|lia|]. rewrite app_nil_r in Hx. apply IHb in Hx. lia.
-    + apply IH in Hx. rewrite isz_dev in Hx. lia.
-  - rewrite lay1_cons, rnodesl_app in Hx. rewrite iszs_cons, isz_meth. apply in_app_or in Hx. destruct Hx as [Hx|Hx].
-    + rewrite lay1_meth in Hx. unfold rnodesl in Hx. cbn [flat_map] in Hx. rewrite app_nil_r, rnodes_eq in Hx.
-      destruct Hx as [<-|Hx]; [lia|]. unfold rnodesl in Hx. cbn [flat_map] in Hx. rewrite !rnodes_eq in Hx. cbn [rnodesl flat_map app] in Hx.
-      destruct Hx as [<-|[<-|[<-|Hx]]]; [lia|lia|lia|]. rewrite app_nil_r in Hx. apply IHb in Hx. lia.
-    + apply IH in Hx. rewrite isz_meth in Hx. lia.
+  - rewrite lay1_cons, rnodesl_app in Hx. rewrite iszs_cons, isz_blk. apply in_app_or in Hx. destruct Hx as [Hx|Hx].
+    + rewrite lay1_blk in Hx. unfold rnodesl in Hx. cbn [flat_map] in Hx. rewrite app_nil_r, rnodes_eq in Hx.
+      destruct Hx as [<-|Hx]; [lia|]. rewrite rnodesl_app in Hx. apply in_app_or in Hx. destruct Hx as [Hx|Hx].
+      * apply leaf_row_nodes in Hx. rewrite len_hd_pays in Hx. lia.
+      * unfold rnodesl in Hx. cbn [flat_map] in Hx. rewrite app_nil_r, rnodes_eq in Hx. unfold nfx in Hx.
+        destruct Hx as [<-|Hx]; [lia|]. apply IHb in Hx. lia.
+    + apply IH in Hx. rewrite isz_blk in Hx. lia.
 Qed.
 
 (** ---- what the first pass does to the forest and the payloads ---- *)
@@ -134,7 +129,6 @@ Proof.
   unfold reader_wf. cbn [r_len r_data r_pkgEnd]. repeat split; auto.
 Qed.
 
-Lemma enc_op_dev : enc_op OP_DEVICE = [0x5b; 0x82]. Proof. reflexivity. Qed.
 
 Lemma forallb_item_cons x t : forallb item_okb (x :: t) = true -> item_okb x = true /\ forallb item_okb t = true.
 Proof. cbn [forallb]. intros H. apply andb_prop in H. exact H. Qed.
@@ -170,66 +164,56 @@ Proof.
   - intros x Hx. unfold pl2. apply pget_app_old. exact Hx.
 Qed.
 
-Lemma post1_dev g pl sc g2 pl2 h tbl k seg body off :
-  sc < N.of_nat (length pl) -> length (g_kids g) = length pl ->
-  Post1 (g_block g sc) (pl ++ [dev_pay h off name_zero; pth_pay h tbl (off + 2 + k); sb_pay h (off + 2 + k + 4)]) g2 pl2
-        (N.of_nat (length pl) + 2) (lay1 h tbl (N.of_nat (length pl) + 3) (off + 2 + k + 4) body) ->
-  Post1 g pl g2 pl2 sc (lay1_item h tbl (N.of_nat (length pl)) off (IDev k seg body)).
-Proof.
-  intros Hsc Hlg [A1 A2 A3 A4 A5 A6]. set (b := N.of_nat (length pl)) in *.
-  set (pl1 := pl ++ [dev_pay h off name_zero; pth_pay h tbl (off + 2 + k); sb_pay h (off + 2 + k + 4)]) in *.
-  assert (Hl1 : N.of_nat (length pl1) = b + 3) by (unfold pl1, b; rewrite app_length; cbn [length]; lia).
-  assert (HK : forall i, kids (g_block g sc) i = if i =? b then [b + 1; b + 2] else if i =? sc then kids g sc ++ [b] else kids g i).
-  { intros i. rewrite kids_g_block by (rewrite Hlg; exact Hsc). cbv zeta. rewrite Hlg. reflexivity. }
-  assert (Hoob : forall i, b <= i -> kids g i = []) by (intros i Hi; apply kids_oob; rewrite Hlg; exact Hi).
-  assert (Hp : forall c, c < 3 -> pget pl2 (b + c) = pget [dev_pay h off name_zero; pth_pay h tbl (off + 2 + k); sb_pay h (off + 2 + k + 4)] c).
-  { intros c Hc. rewrite A6 by lia. unfold pl1, b. apply pget_app_new. }
-  rewrite lay1_dev. fold b. constructor.
-  - exact A1.
-  - rewrite A2. unfold pl1. rewrite app_length. cbn [length rsizes fold_right]. rewrite !rsize_eq. cbn [rsizes fold_right]. rewrite !rsize_eq.
-    cbn [rsizes fold_right]. fold (rsizes (lay1 h tbl (b + 3) (off + 2 + k + 4) body)). lia.
-  - rewrite A5 by lia. rewrite HK. destruct (N.eqb_spec sc b); [lia|]. rewrite N.eqb_refl. reflexivity.
-  - constructor; [|constructor]. constructor.
-    + rewrite <- (N.add_0_r b). rewrite (Hp 0) by lia. reflexivity.
-    + rewrite A5 by lia. rewrite HK, N.eqb_refl. reflexivity.
-    + constructor; [|constructor; [|constructor]].
-      * constructor; [rewrite (Hp 1) by lia; reflexivity| |constructor].
-        rewrite A5 by lia. rewrite HK. destruct (N.eqb_spec (b + 1) b); [lia|]. destruct (N.eqb_spec (b + 1) sc); [lia|]. apply Hoob. lia.
-      * constructor; [rewrite (Hp 2) by lia; reflexivity| |exact A4].
-        rewrite A3. rewrite HK. destruct (N.eqb_spec (b + 2) b); [lia|]. destruct (N.eqb_spec (b + 2) sc); [lia|]. rewrite (Hoob (b + 2)) by lia. reflexivity.
-  - intros x Hx Hne. rewrite A5 by lia. rewrite HK. destruct (N.eqb_spec x b); [lia|]. apply N.eqb_neq in Hne. rewrite Hne. reflexivity.
-  - intros x Hx. rewrite A6 by lia. unfold pl1. apply pget_app_old. exact Hx.
-Qed.
+Lemma nth_error_S {A} (x : A) l n : nth_error (x :: l) (S n) = nth_error l n.
+Proof. reflexivity. Qed.
 
-Lemma post1_meth g pl sc g2 pl2 h tbl k seg fl body off :
+Lemma map_fst_combine {A B} (l1 : list A) (l2 : list B) : length l1 = length l2 -> map fst (combine l1 l2) = l1.
+Proof. revert l2. induction l1 as [|x t IH]; intros [|y r] Hl; cbn in *; try reflexivity; try discriminate. rewrite IH by lia. reflexivity. Qed.
+
+Lemma post1_blk g pl sc g2 pl2 h tbl bk k seg fa body off :
   sc < N.of_nat (length pl) -> length (g_kids g) = length pl ->
-  Post1 (g_meth g sc) (pl ++ [mth_pay h off name_zero; pth_pay h tbl (off + 1 + k); byt_pay h (off + 1 + k + 4) fl; sb_pay h (off + 1 + k + 5)]) g2 pl2
-        (N.of_nat (length pl) + 3) (lay1 h tbl (N.of_nat (length pl) + 4) (off + 1 + k + 5) body) ->
-  Post1 g pl g2 pl2 sc (lay1_item h tbl (N.of_nat (length pl)) off (IMeth k seg fl body)).
+  Post1 (g_args (g_head g sc) (N.of_nat (length pl)) (2 + length (bfx bk fa)))
+        (pl ++ blk_pay h bk off name_zero :: hd_pays h tbl bk off k fa ++ [sb_pay h (sb_off bk off k fa)]) g2 pl2
+        (N.of_nat (length pl) + 2 + nfx bk fa) (lay1 h tbl (N.of_nat (length pl) + 3 + nfx bk fa) (sb_off bk off k fa) body) ->
+  Post1 g pl g2 pl2 sc (lay1_item h tbl (N.of_nat (length pl)) off (IBlk bk k seg fa body)).
 Proof.
   intros Hsc Hlg [A1 A2 A3 A4 A5 A6]. set (b := N.of_nat (length pl)) in *.
-  set (pl1 := pl ++ [mth_pay h off name_zero; pth_pay h tbl (off + 1 + k); byt_pay h (off + 1 + k + 4) fl; sb_pay h (off + 1 + k + 5)]) in *.
-  assert (Hl1 : N.of_nat (length pl1) = b + 4) by (unfold pl1, b; rewrite app_length; cbn [length]; lia).
-  assert (HK : forall i, kids (g_meth g sc) i = if i =? b then [b + 1; b + 2; b + 3] else if i =? sc then kids g sc ++ [b] else kids g i).
-  { intros i. rewrite kids_g_meth by (rewrite Hlg; exact Hsc). cbv zeta. rewrite Hlg. reflexivity. }
+  set (nf := length (bfx bk fa)) in *. assert (Hm : nfx bk fa = N.of_nat nf) by reflexivity. rewrite Hm in *.
+  set (news := blk_pay h bk off name_zero :: hd_pays h tbl bk off k fa ++ [sb_pay h (sb_off bk off k fa)]) in *.
+  set (pl1 := pl ++ news) in *.
+  assert (Hlh : length (hd_pays h tbl bk off k fa) = S nf) by apply len_hd_pays.
+  assert (Hln : length news = (3 + nf)%nat) by (unfold news; cbn [length]; rewrite app_length, Hlh; cbn [length]; lia).
+  assert (Hl1 : N.of_nat (length pl1) = b + 3 + N.of_nat nf) by (unfold pl1, b; rewrite app_length, Hln; lia).
   assert (Hoob : forall i, b <= i -> kids g i = []) by (intros i Hi; apply kids_oob; rewrite Hlg; exact Hi).
-  assert (Hp : forall c, c < 4 -> pget pl2 (b + c) = pget [mth_pay h off name_zero; pth_pay h tbl (off + 1 + k); byt_pay h (off + 1 + k + 4) fl; sb_pay h (off + 1 + k + 5)] c).
+  assert (HK : forall i, kids (g_args (g_head g sc) b (2 + nf)) i =
+             if i =? b then seqN (b + 1) (2 + nf) else if i =? sc then kids g sc ++ [b] else kids g i).
+  { intros i. rewrite kids_g_args by (rewrite len_g_head, Hlg; unfold b; lia). rewrite len_g_head, !kids_g_head by (rewrite Hlg; exact Hsc). rewrite Hlg.
+    destruct (N.eqb_spec i b) as [->|Hib].
+    - destruct (N.eqb_spec b sc); [lia|]. rewrite (Hoob b) by lia. cbn [app]. f_equal. unfold b. lia.
+    - reflexivity. }
+  assert (Hp : forall c, c < 3 + N.of_nat nf -> pget pl2 (b + c) = pget news c).
   { intros c Hc. rewrite A6 by lia. unfold pl1, b. apply pget_app_new. }
-  rewrite lay1_meth. fold b. constructor.
+  rewrite lay1_blk. fold b. rewrite Hm. constructor.
   - exact A1.
-  - rewrite A2. unfold pl1. rewrite app_length. cbn [length rsizes fold_right]. rewrite !rsize_eq. cbn [rsizes fold_right]. rewrite !rsize_eq.
-    cbn [rsizes fold_right]. fold (rsizes (lay1 h tbl (b + 4) (off + 1 + k + 5) body)). lia.
+  - rewrite A2. unfold pl1. rewrite app_length, Hln. cbn [rsizes fold_right]. rewrite !rsize_eq, rsizes_app, leaf_row_rsizes, Hlh.
+    cbn [rsizes fold_right]. rewrite rsize_eq. lia.
   - rewrite A5 by lia. rewrite HK. destruct (N.eqb_spec sc b); [lia|]. rewrite N.eqb_refl. reflexivity.
   - constructor; [|constructor]. constructor.
     + rewrite <- (N.add_0_r b). rewrite (Hp 0) by lia. reflexivity.
-    + rewrite A5 by lia. rewrite HK, N.eqb_refl. reflexivity.
-    + constructor; [|constructor; [|constructor; [|constructor]]].
-      * constructor; [rewrite (Hp 1) by lia; reflexivity| |constructor].
-        rewrite A5 by lia. rewrite HK. destruct (N.eqb_spec (b + 1) b); [lia|]. destruct (N.eqb_spec (b + 1) sc); [lia|]. apply Hoob. lia.
-      * constructor; [rewrite (Hp 2) by lia; reflexivity| |constructor].
-        rewrite A5 by lia. rewrite HK. destruct (N.eqb_spec (b + 2) b); [lia|]. destruct (N.eqb_spec (b + 2) sc); [lia|]. apply Hoob. lia.
-      * constructor; [rewrite (Hp 3) by lia; reflexivity| |exact A4].
-        rewrite A3. rewrite HK. destruct (N.eqb_spec (b + 3) b); [lia|]. destruct (N.eqb_spec (b + 3) sc); [lia|]. rewrite (Hoob (b + 3)) by lia. reflexivity.
+    + rewrite A5 by lia. rewrite HK, N.eqb_refl. rewrite map_app, leaf_row_idx, Hlh. cbn [map ridx].
+      change (2 + nf)%nat with (S (S nf)). rewrite (seqN_snoc (b + 1) (S nf)). f_equal. f_equal. lia.
+    + apply Forall_app. split.
+      * apply leaf_row_desc. intros i p Hi.
+        assert (Hilt : (i < S nf)%nat) by (rewrite <- Hlh; apply nth_error_Some; congruence).
+        split.
+        -- replace (b + 1 + N.of_nat i) with (b + N.of_nat (S i)) by lia. rewrite Hp by lia. unfold pget. rewrite Nat2N.id.
+           unfold news. cbn [nth_error]. rewrite nth_error_app1 by (rewrite Hlh; lia). exact Hi.
+        -- rewrite A5 by lia. rewrite HK. destruct (N.eqb_spec (b + 1 + N.of_nat i) b); [lia|]. destruct (N.eqb_spec (b + 1 + N.of_nat i) sc); [lia|]. apply Hoob. lia.
+      * constructor; [|constructor]. constructor; [| |exact A4].
+        -- replace (b + 2 + N.of_nat nf) with (b + N.of_nat (S (S nf))) by lia. rewrite Hp by lia. unfold pget. rewrite Nat2N.id.
+           unfold news. rewrite nth_error_S, nth_error_app2 by (rewrite Hlh; lia). rewrite Hlh, Nat.sub_diag. reflexivity.
+        -- rewrite A3. rewrite HK. destruct (N.eqb_spec (b + 2 + N.of_nat nf) b); [lia|]. destruct (N.eqb_spec (b + 2 + N.of_nat nf) sc); [lia|].
+           rewrite (Hoob (b + 2 + N.of_nat nf)) by lia. reflexivity.
   - intros x Hx Hne. rewrite A5 by lia. rewrite HK. destruct (N.eqb_spec x b); [lia|]. apply N.eqb_neq in Hne. rewrite Hne. reflexivity.
   - intros x Hx. rewrite A6 by lia. unfold pl1. apply pget_app_old. exact Hx.
 Qed.
@@ -345,71 +329,70 @@ Proof.
   rewrite app_nil_r in Hx. apply lay1_nodes in Hx. cbn [iszs fold_right isz] in Hx. lia.
 Qed.
 
-Lemma dev_facts : valid_opcode aml_pOpDevice /\ aml_pOpDevice <> aml_pOpNoop /\ aml_pOpDevice <> opFreed /\
-  is_prefix_op aml_pOpDevice = false /\ opcodeTableIndex aml_pOpDevice true = Some 106 /\
-  opInfo 106 = Some (aml_pOpDevice, 33, 67855) /\ hasFlag 33 aml_pOpFlagDeferParsing = false.
-Proof.
-  repeat split; try discriminate; try reflexivity. exists 106. split; [reflexivity|discriminate].
-Qed.
-
-Lemma ispec_dev k seg body rest : ISpec body -> ISpec rest -> ISpec (IDev k seg body :: rest).
+Lemma ispec_blk bk k seg fa body rest : ISpec body -> ISpec rest -> ISpec (IBlk bk k seg fa body :: rest).
 Proof.
   intros IHb IH fo fi off e t sc ss es g pl pre post a R Q H Hfree Hroom Hd Ho He Hel Hok Hbal Hsc Hlsc HR Hfi Hfo K.
   apply forallb_item_cons in Hok. destruct Hok as [Hd_ok Hok]. cbn [item_okb] in Hd_ok.
   apply andb_prop in Hd_ok. destruct Hd_ok as [Hx Hbody_ok]. apply andb_prop in Hx. destruct Hx as [Hx Hpk].
+  apply andb_prop in Hx. destruct Hx as [Hx Hfx]. apply andb_prop in Hx. destruct Hx as [Hx Hlfa]. apply Nat.eqb_eq in Hlfa.
   apply andb_prop in Hx. destruct Hx as [Hlead _]. apply pkglen_okb_adm in Hpk.
-  rewrite iszs_cons, isz_dev in Hroom. rewrite icnts_cons, icnt_dev in Hfi, Hfo.
-  rewrite enc_items_cons, enc_dev in Hd, He. subst off.
-  set (v := k + lenN (seg_bytes seg ++ enc_items body)) in *.
-  assert (Hv : v = k + 4 + lenN (enc_items body)) by (unfold v; rewrite lenN_app; change (lenN (seg_bytes seg)) with 4; lia).
+  set (l := bfx bk fa) in *. set (nf := length l) in *. set (lo := blo bk) in *.
+  assert (Hws : map fst l = bk_ws bk) by (unfold l, bfx; apply map_fst_combine; lia).
+  rewrite iszs_cons, isz_blk in Hroom. rewrite icnts_cons, icnt_blk in Hfi, Hfo. fold l nf in Hroom, Hfi, Hfo.
+  rewrite enc_items_cons, enc_blk in Hd, He. fold l in Hd, He. subst off.
+  set (v := k + lenN (seg_bytes seg ++ enc_fx l ++ enc_items body)) in *.
+  assert (Hv : v = k + 4 + lenN (enc_fx l) + lenN (enc_items body)) by (unfold v; rewrite !lenN_app; change (lenN (seg_bytes seg)) with 4; lia).
   pose proof (lenN_enc_pkglen k v Hpk) as Hlk.
   pose proof (rep_len_g _ _ _ H) as Hlg. pose proof (rep_len_pool _ _ _ H) as Hlp.
   assert (Hsclt : sc < N.of_nat (length pl)) by (eapply pget_lt; eauto).
-  destruct dev_facts as (F1 & F2 & F3 & F4 & F5 & F6 & F7).
-  assert (Ef : exists f', fi = S (S (S (S (S (S (S f'))))))) by (exists (fi - 7)%nat; lia). destruct Ef as (f' & ->).
+  assert (Ef : exists f', fi = S (S (S (S (S (S (nf + S (S f')))))))) by (exists (fi - nf - 8)%nat; lia). destruct Ef as (f' & ->).
   set (s0 := st1 (lenN pre) e t (sc :: ss) (e :: es)).
-  assert (HlenI : lenN (enc_op OP_DEVICE ++ enc_pkglen k v ++ seg_bytes seg ++ enc_items body) = 2 + v).
-  { rewrite !lenN_app, Hlk. change (lenN (enc_op OP_DEVICE)) with 2. change (lenN (seg_bytes seg)) with 4. lia. }
+  assert (HlenI : lenN (enc_op (bk_op bk) ++ enc_pkglen k v ++ seg_bytes seg ++ enc_fx l ++ enc_items body) = lo + v).
+  { rewrite !lenN_app, Hlk. change (lenN (enc_op (bk_op bk))) with lo. change (lenN (seg_bytes seg)) with 4. lia. }
   rewrite lenN_app, HlenI in He.
-  assert (Hat0 : at_token (p_r s0) pre (enc_op aml_pOpDevice ++ enc_pkglen k v ++ seg_bytes seg ++ (enc_items body ++ enc_items rest)) post).
+  assert (Hat0 : at_token (p_r s0) pre (enc_op (bk_op bk) ++ enc_pkglen k v ++ seg_bytes seg ++ enc_fx l ++ (enc_items body ++ enc_items rest)) post).
   { apply mk_at; [ |reflexivity| |exact Hel|exact Hlen|exact Hsmall|exact Hbytes].
-    - rewrite Hd. change aml_pOpDevice with OP_DEVICE. rewrite <- !app_assoc. reflexivity.
-    - rewrite !lenN_app, Hlk. change (lenN (enc_op aml_pOpDevice)) with 2. change (lenN (seg_bytes seg)) with 4. lia. }
+    - rewrite Hd. rewrite <- !app_assoc. reflexivity.
+    - rewrite !lenN_app, Hlk. change (lenN (enc_op (bk_op bk))) with lo. change (lenN (seg_bytes seg)) with 4. lia. }
   (* the header *)
   apply wp_list_cont_S. unfold eofM, rq. apply wp_bind, wp_get.
   assert (Hne : eof (p_r s0) = false).
-  { change (enc_op aml_pOpDevice) with [0x5b; 0x82] in Hat0. cbn [app] in Hat0. apply (at_not_eof _ _ _ _ _ Hat0). }
+  { destruct (enc_op_nonempty (bk_op bk)) as (x0 & l0 & Eop). rewrite Eop in Hat0. cbn [app] in Hat0. apply (at_not_eof _ _ _ _ _ Hat0). }
   rewrite Hne.
   apply wp_bind. eapply wp_conseq.
-  { eapply (next_block _ aml_pOpDevice 106 33 s0 g pl pre k v seg _ post sc ss a);
-      [exact H|exact Hfree|lia|exact Hat0|exact F1|exact F2|exact F3|exact F4|exact F5|exact F6|exact F7|exact Hpk|lia| |exact Hlead|reflexivity|exact Hsc|exact Hlsc|reflexivity].
-    change (lenN (enc_op aml_pOpDevice)) with 2. cbn [s0 st1 p_r r_len]. lia. }
+  { eapply (next_blk f' bk s0 g pl pre k v seg l _ post sc ss a);
+      [exact H|exact Hfree|lia|exact Hat0|exact Hws|exact Hfx|exact Hpk|lia| |exact Hlead|reflexivity|exact Hsc|exact Hlsc|reflexivity].
+    change (lenN (enc_op (bk_op bk))) with lo. cbn [s0 st1 p_r r_len]. lia. }
+  cbv zeta. change (lenN (enc_op (bk_op bk))) with lo. fold nf.
   intros res s1 (-> & t1 & -> & H1). change (pres_eqb ROk ROk) with true. cbv iota.
-  change (lenN (enc_op aml_pOpDevice)) with 2 in *.
   set (b := N.of_nat (length pl)) in *.
-  set (off1 := lenN pre + 2 + k + 4). set (e1 := lenN pre + 2 + v).
-  set (pl1 := pl ++ blk_pays s0 aml_pOpDevice 106 (lenN pre) k) in *.
-  assert (Hpl1 : pl1 = pl ++ [dev_pay h (lenN pre) name_zero; pth_pay h tbl (lenN pre + 2 + k); sb_pay h (lenN pre + 2 + k + 4)]) by reflexivity.
-  assert (Hl1 : length pl1 = S (S (S (length pl)))) by (rewrite Hpl1, app_length; cbn [length]; lia).
-  set (s1 := st1 off1 e1 t1 (b + 2 :: sc :: ss) (e1 :: e :: es)).
-  assert (Es1 : after_block s0 off1 e1 t1 = s1).
-  { unfold after_block, s1, s0, st1. scbn. unfold set_pkgEnd_raw, set_offset_raw. cbn [r_data r_len r_offset r_pkgEnd p_r p_tree]. rewrite <- Hlp. reflexivity. }
+  set (off1 := lenN pre + lo + k + 4 + lenN (enc_fx l)). set (e1 := lenN pre + lo + v).
+  set (pl1 := pl ++ blk_pays' s0 bk (lenN pre) k l) in *.
+  assert (Hpl1 : pl1 = pl ++ blk_pay h bk (lenN pre) name_zero :: hd_pays h tbl bk (lenN pre) k fa ++ [sb_pay h (sb_off bk (lenN pre) k fa)]) by reflexivity.
+  assert (Hl1 : length pl1 = (3 + nf + length pl)%nat).
+  { rewrite Hpl1, app_length. cbn [length]. rewrite app_length, len_hd_pays. cbn [length]. fold l nf. lia. }
+  set (s1 := st1 off1 e1 t1 (b + 2 + N.of_nat nf :: sc :: ss) (e1 :: e :: es)).
+  assert (Es1 : after_blk s0 (2 + N.of_nat nf) off1 e1 t1 = s1).
+  { unfold after_blk, s1, s0, st1. scbn. unfold set_pkgEnd_raw, set_offset_raw. cbn [r_data r_len r_offset r_pkgEnd p_r p_tree]. rewrite <- Hlp.
+    fold b. replace (b + (2 + N.of_nat nf)) with (b + 2 + N.of_nat nf) by lia. reflexivity. }
   rewrite Es1.
   (* the body *)
-  set (pre1 := pre ++ enc_op OP_DEVICE ++ enc_pkglen k v ++ seg_bytes seg).
+  set (pre1 := pre ++ enc_op (bk_op bk) ++ enc_pkglen k v ++ seg_bytes seg ++ enc_fx l).
   assert (Hlp1 : lenN pre1 = off1).
-  { unfold pre1, off1. rewrite !lenN_app, Hlk. change (lenN (enc_op OP_DEVICE)) with 2. change (lenN (seg_bytes seg)) with 4. lia. }
-  assert (Hsb1 : pget pl1 (b + 2) = Some (sb_pay h (lenN pre + 2 + k + 4))).
-  { rewrite Hpl1. unfold b. rewrite pget_app_new. reflexivity. }
-  eapply (IHb fo _ off1 e1 t1 (b + 2) (sc :: ss) (e :: es) _ pl1 pre1 (enc_items rest ++ post) _ (icnts rest + R + 1)%nat Q);
-    [exact H1|reflexivity|rewrite Hl1; lia| |symmetry; exact Hlp1| | |exact Hbody_ok|cbn [length]; rewrite Hbal; reflexivity|exact Hsb1|discriminate|lia|lia|lia|].
+  { unfold pre1, off1. rewrite !lenN_app, Hlk. change (lenN (enc_op (bk_op bk))) with lo. change (lenN (seg_bytes seg)) with 4. lia. }
+  assert (Hsb1 : pget pl1 (b + 2 + N.of_nat nf) = Some (sb_pay h off1)).
+  { rewrite Hpl1. unfold b. replace (N.of_nat (length pl) + 2 + N.of_nat nf) with (N.of_nat (length pl) + N.of_nat (S (S nf))) by lia.
+    rewrite pget_app_new. unfold pget. rewrite Nat2N.id. rewrite nth_error_S, nth_error_app2 by (rewrite len_hd_pays; fold l nf; lia).
+    rewrite len_hd_pays. fold l nf. rewrite Nat.sub_diag. reflexivity. }
+  eapply (IHb fo _ off1 e1 t1 (b + 2 + N.of_nat nf) (sc :: ss) (e :: es) _ pl1 pre1 (enc_items rest ++ post) _ (icnts rest + R + 1)%nat Q);
+    [exact H1|apply free_g_args; reflexivity|rewrite Hl1; lia| |symmetry; exact Hlp1| | |exact Hbody_ok|cbn [length]; rewrite Hbal; reflexivity|exact Hsb1|discriminate|lia|lia|lia|].
   { unfold pre1. rewrite Hd. rewrite <- !app_assoc. reflexivity. }
   { rewrite Hlp1. unfold off1, e1. lia. }
   { unfold e1. lia. }
   intros t2 g2 pl2 fo2 fi2 H2 P2 Hfi2 Hfo2.
   (* the end of the block *)
   destruct fi2 as [|fi2']; [lia|]. apply wp_list_cont_S. unfold eofM, rq. apply wp_bind, wp_get.
-  assert (Eeof : eof (p_r (st1 (off1 + lenN (enc_items body)) e1 t2 (b + 2 :: sc :: ss) (e1 :: e :: es))) = true).
+  assert (Eeof : eof (p_r (st1 (off1 + lenN (enc_items body)) e1 t2 (b + 2 + N.of_nat nf :: sc :: ss) (e1 :: e :: es))) = true).
   { unfold eof. cbn [st1 p_r r_pkgEnd r_offset]. apply N.leb_le. unfold e1, off1. lia. }
   rewrite Eeof.
   destruct fo2 as [|fo2']; [lia|].
@@ -417,11 +400,11 @@ Proof.
   (* the rest *)
   set (pre2 := pre1 ++ enc_items body).
   assert (Hlp2 : lenN pre2 = off1 + lenN (enc_items body)) by (unfold pre2; rewrite lenN_app, Hlp1; reflexivity).
-  assert (Hl2 : length pl2 = (length pl + 3 + iszs body)%nat).
+  assert (Hl2 : length pl2 = (length pl + 3 + nf + iszs body)%nat).
   { rewrite (p1_len _ _ _ _ _ _ P2), Hl1, lay1_rsizes. lia. }
-  assert (P02 : Post1 g pl g2 pl2 sc (lay1_item h tbl b (lenN pre) (IDev k seg body))).
-  { apply post1_dev; [exact Hsclt|exact Hlg|]. rewrite <- Hpl1. fold b.
-    replace (b + 3) with (N.of_nat (length pl1)) by lia. exact P2. }
+  assert (P02 : Post1 g pl g2 pl2 sc (lay1_item h tbl b (lenN pre) (IBlk bk k seg fa body))).
+  { apply post1_blk; [exact Hsclt|exact Hlg|]. rewrite <- Hpl1. fold b l nf. unfold nfx. fold l nf.
+    replace (b + 3 + N.of_nat nf) with (N.of_nat (length pl1)) by lia. exact P2. }
   assert (Hsc2 : pget pl2 sc = Some a).
   { rewrite (p1_old_p _ _ _ _ _ _ P02) by exact Hsclt. exact Hsc. }
   eapply (IH fo2' _ (off1 + lenN (enc_items body)) e t2 sc ss es g2 pl2 pre2 post a R Q);
@@ -430,112 +413,23 @@ Proof.
   { rewrite Hlp2. unfold off1. lia. }
   intros t3 g3 pl3 fo3 fi3 H3 P3 Hfi3 Hfo3.
   specialize (K t3 g3 pl3 fo3 fi3 H3).
-  rewrite lay1_cons, isz_dev in K. fold b in K.
-  replace (b + N.of_nat (3 + iszs body)) with (N.of_nat (length pl2)) in K by (rewrite Hl2; unfold b; lia).
-  rewrite enc_items_cons, lenN_app, enc_dev in K. fold v in K. rewrite HlenI in K.
-  replace (lenN pre + (2 + v)) with (off1 + lenN (enc_items body)) in K by (unfold off1; lia).
-  replace (lenN pre + (2 + v + lenN (enc_items rest))) with (off1 + lenN (enc_items body) + lenN (enc_items rest)) in K by (unfold off1; lia).
+  rewrite lay1_cons, isz_blk in K. fold b l nf in K.
+  replace (b + N.of_nat (3 + nf + iszs body)) with (N.of_nat (length pl2)) in K by (rewrite Hl2; unfold b; lia).
+  rewrite enc_items_cons, lenN_app, enc_blk in K. fold l v in K. rewrite HlenI in K.
+  replace (lenN pre + (lo + v)) with (off1 + lenN (enc_items body)) in K by (unfold off1; lia).
+  replace (lenN pre + (lo + v + lenN (enc_items rest))) with (off1 + lenN (enc_items body) + lenN (enc_items rest)) in K by (unfold off1; lia).
   apply K; [|exact Hfi3|exact Hfo3].
   eapply Post1_app; [exact Hsclt| |exact P02|exact P3].
-  intros x Hx. change (lay1_item h tbl b (lenN pre) (IDev k seg body)) with (lay1 h tbl b (lenN pre) [IDev k seg body] ++ []) in Hx.
-  rewrite app_nil_r in Hx. apply lay1_nodes in Hx. cbn [iszs fold_right] in Hx. rewrite isz_dev in Hx. rewrite Hl2. unfold b in *. lia.
-Qed.
-
-Lemma ispec_meth k seg fl body rest : ISpec body -> ISpec rest -> ISpec (IMeth k seg fl body :: rest).
-Proof.
-  intros IHb IH fo fi off e t sc ss es g pl pre post a R Q H Hfree Hroom Hd Ho He Hel Hok Hbal Hsc Hlsc HR Hfi Hfo K.
-  apply forallb_item_cons in Hok. destruct Hok as [Hd_ok Hok]. cbn [item_okb] in Hd_ok.
-  apply andb_prop in Hd_ok. destruct Hd_ok as [Hx Hbody_ok]. apply andb_prop in Hx. destruct Hx as [Hx Hpk].
-  apply andb_prop in Hx. destruct Hx as [Hx Hfl]. apply N.ltb_lt in Hfl.
-  apply andb_prop in Hx. destruct Hx as [Hlead _]. apply pkglen_okb_adm in Hpk.
-  rewrite iszs_cons, isz_meth in Hroom. rewrite icnts_cons, icnt_meth in Hfi, Hfo.
-  rewrite enc_items_cons, enc_meth in Hd, He. subst off.
-  set (v := k + lenN (seg_bytes seg ++ [fl] ++ enc_items body)) in *.
-  assert (Hv : v = k + 5 + lenN (enc_items body)) by (unfold v; rewrite !lenN_app; change (lenN (seg_bytes seg)) with 4; change (lenN [fl]) with 1; lia).
-  pose proof (lenN_enc_pkglen k v Hpk) as Hlk.
-  pose proof (rep_len_g _ _ _ H) as Hlg. pose proof (rep_len_pool _ _ _ H) as Hlp.
-  assert (Hsclt : sc < N.of_nat (length pl)) by (eapply pget_lt; eauto).
-  assert (Ef : exists f', fi = S (S (S (S (S (S (S (S f')))))))) by (exists (fi - 8)%nat; lia). destruct Ef as (f' & ->).
-  set (s0 := st1 (lenN pre) e t (sc :: ss) (e :: es)).
-  assert (HlenI : lenN (enc_op OP_METHOD ++ enc_pkglen k v ++ seg_bytes seg ++ [fl] ++ enc_items body) = 1 + v).
-  { rewrite !lenN_app, Hlk. change (lenN (enc_op OP_METHOD)) with 1. change (lenN (seg_bytes seg)) with 4. change (lenN [fl]) with 1. lia. }
-  rewrite lenN_app, HlenI in He.
-  assert (Hat0 : at_token (p_r s0) pre (enc_op aml_pOpMethod ++ enc_pkglen k v ++ seg_bytes seg ++ [fl] ++ (enc_items body ++ enc_items rest)) post).
-  { apply mk_at; [ |reflexivity| |exact Hel|exact Hlen|exact Hsmall|exact Hbytes].
-    - rewrite Hd. change aml_pOpMethod with OP_METHOD. rewrite <- !app_assoc. reflexivity.
-    - rewrite !lenN_app, Hlk. change (lenN (enc_op aml_pOpMethod)) with 1. change (lenN (seg_bytes seg)) with 4. change (lenN [fl]) with 1. lia. }
-  (* the header *)
-  apply wp_list_cont_S. unfold eofM, rq. apply wp_bind, wp_get.
-  assert (Hne : eof (p_r s0) = false).
-  { change (enc_op aml_pOpMethod) with [0x14] in Hat0. cbn [app] in Hat0. apply (at_not_eof _ _ _ _ _ Hat0). }
-  rewrite Hne.
-  apply wp_bind. eapply wp_conseq.
-  { eapply (next_meth _ s0 g pl pre k v seg fl _ post sc ss a);
-      [exact H|exact Hfree|lia|exact Hat0|exact Hpk|lia| |exact Hlead|exact Hfl|reflexivity|exact Hsc|exact Hlsc|reflexivity].
-    cbn [s0 st1 p_r r_len]. lia. }
-  intros res s1 (-> & t1 & -> & H1). change (pres_eqb ROk ROk) with true. cbv iota.
-  set (b := N.of_nat (length pl)) in *.
-  set (off1 := lenN pre + 1 + k + 5). set (e1 := lenN pre + 1 + v).
-  set (pl1 := pl ++ meth_pays s0 (lenN pre) k fl) in *.
-  assert (Hpl1 : pl1 = pl ++ [mth_pay h (lenN pre) name_zero; pth_pay h tbl (lenN pre + 1 + k); byt_pay h (lenN pre + 1 + k + 4) fl; sb_pay h (lenN pre + 1 + k + 5)]) by reflexivity.
-  assert (Hl1 : length pl1 = S (S (S (S (length pl))))) by (rewrite Hpl1, app_length; cbn [length]; lia).
-  set (s1 := st1 off1 e1 t1 (b + 3 :: sc :: ss) (e1 :: e :: es)).
-  assert (Es1 : after_meth s0 off1 e1 t1 = s1).
-  { unfold after_meth, s1, s0, st1. scbn. unfold set_pkgEnd_raw, set_offset_raw. cbn [r_data r_len r_offset r_pkgEnd p_r p_tree]. rewrite <- Hlp. reflexivity. }
-  rewrite Es1.
-  (* the body *)
-  set (pre1 := pre ++ enc_op OP_METHOD ++ enc_pkglen k v ++ seg_bytes seg ++ [fl]).
-  assert (Hlp1 : lenN pre1 = off1).
-  { unfold pre1, off1. rewrite !lenN_app, Hlk. change (lenN (enc_op OP_METHOD)) with 1. change (lenN (seg_bytes seg)) with 4. change (lenN [fl]) with 1. lia. }
-  assert (Hsb1 : pget pl1 (b + 3) = Some (sb_pay h (lenN pre + 1 + k + 5))).
-  { rewrite Hpl1. unfold b. rewrite pget_app_new. reflexivity. }
-  eapply (IHb fo _ off1 e1 t1 (b + 3) (sc :: ss) (e :: es) _ pl1 pre1 (enc_items rest ++ post) _ (icnts rest + R + 1)%nat Q);
-    [exact H1|reflexivity|rewrite Hl1; lia| |symmetry; exact Hlp1| | |exact Hbody_ok|cbn [length]; rewrite Hbal; reflexivity|exact Hsb1|discriminate|lia|lia|lia|].
-  { unfold pre1. rewrite Hd. rewrite <- !app_assoc. reflexivity. }
-  { rewrite Hlp1. unfold off1, e1. lia. }
-  { unfold e1. lia. }
-  intros t2 g2 pl2 fo2 fi2 H2 P2 Hfi2 Hfo2.
-  (* the end of the block *)
-  destruct fi2 as [|fi2']; [lia|]. apply wp_list_cont_S. unfold eofM, rq. apply wp_bind, wp_get.
-  assert (Eeof : eof (p_r (st1 (off1 + lenN (enc_items body)) e1 t2 (b + 3 :: sc :: ss) (e1 :: e :: es))) = true).
-  { unfold eof. cbn [st1 p_r r_pkgEnd r_offset]. apply N.leb_le. unfold e1, off1. lia. }
-  rewrite Eeof.
-  destruct fo2 as [|fo2']; [lia|].
-  apply wp_list_end; [exact Hbal|exact Hel|].
-  (* the rest *)
-  set (pre2 := pre1 ++ enc_items body).
-  assert (Hlp2 : lenN pre2 = off1 + lenN (enc_items body)) by (unfold pre2; rewrite lenN_app, Hlp1; reflexivity).
-  assert (Hl2 : length pl2 = (length pl + 4 + iszs body)%nat).
-  { rewrite (p1_len _ _ _ _ _ _ P2), Hl1, lay1_rsizes. lia. }
-  assert (P02 : Post1 g pl g2 pl2 sc (lay1_item h tbl b (lenN pre) (IMeth k seg fl body))).
-  { apply post1_meth; [exact Hsclt|exact Hlg|]. rewrite <- Hpl1. fold b.
-    replace (b + 4) with (N.of_nat (length pl1)) by lia. exact P2. }
-  assert (Hsc2 : pget pl2 sc = Some a).
-  { rewrite (p1_old_p _ _ _ _ _ _ P02) by exact Hsclt. exact Hsc. }
-  eapply (IH fo2' _ (off1 + lenN (enc_items body)) e t2 sc ss es g2 pl2 pre2 post a R Q);
-    [exact H2|apply (p1_free _ _ _ _ _ _ P2)|rewrite Hl2; lia| |symmetry; exact Hlp2| |exact Hel|exact Hok|exact Hbal|exact Hsc2|exact Hlsc|exact HR|lia|lia|].
-  { unfold pre2, pre1. rewrite Hd. rewrite <- !app_assoc. reflexivity. }
-  { rewrite Hlp2. unfold off1. lia. }
-  intros t3 g3 pl3 fo3 fi3 H3 P3 Hfi3 Hfo3.
-  specialize (K t3 g3 pl3 fo3 fi3 H3).
-  rewrite lay1_cons, isz_meth in K. fold b in K.
-  replace (b + N.of_nat (4 + iszs body)) with (N.of_nat (length pl2)) in K by (rewrite Hl2; unfold b; lia).
-  rewrite enc_items_cons, lenN_app, enc_meth in K. fold v in K. rewrite HlenI in K.
-  replace (lenN pre + (1 + v)) with (off1 + lenN (enc_items body)) in K by (unfold off1; lia).
-  replace (lenN pre + (1 + v + lenN (enc_items rest))) with (off1 + lenN (enc_items body) + lenN (enc_items rest)) in K by (unfold off1; lia).
-  apply K; [|exact Hfi3|exact Hfo3].
-  eapply Post1_app; [exact Hsclt| |exact P02|exact P3].
-  intros x Hx. change (lay1_item h tbl b (lenN pre) (IMeth k seg fl body)) with (lay1 h tbl b (lenN pre) [IMeth k seg fl body] ++ []) in Hx.
-  rewrite app_nil_r in Hx. apply lay1_nodes in Hx. cbn [iszs fold_right] in Hx. rewrite isz_meth in Hx. rewrite Hl2. unfold b in *. lia.
+  intros x Hx. change (lay1_item h tbl b (lenN pre) (IBlk bk k seg fa body)) with (lay1 h tbl b (lenN pre) [IBlk bk k seg fa body] ++ []) in Hx.
+  rewrite app_nil_r in Hx. apply lay1_nodes in Hx. cbn [iszs fold_right] in Hx. rewrite isz_blk in Hx. fold l nf in Hx. rewrite Hl2. unfold b in *. lia.
 Qed.
 
 Theorem ispec_all : forall its, ISpec its.
 Proof.
-  induction its as [|d rest IH|k seg body rest IHb IH|k seg fl body rest IHb IH] using items_ind.
+  induction its as [|d rest IH|bk k seg fa body rest IHb IH] using items_ind.
   - apply ispec_nil.
   - apply ispec_name. exact IH.
-  - apply ispec_dev; assumption.
-  - apply ispec_meth; assumption.
+  - apply ispec_blk; assumption.
 Qed.
 End ItemsSpec.
 
